@@ -10,6 +10,7 @@ import (
 
 	"github.com/zenon-network/go-zenon/chain/nom"
 	"github.com/zenon-network/go-zenon/common/types"
+	"github.com/zenon-network/go-zenon/vm/abi"
 	"github.com/zenon-network/go-zenon/vm/constants"
 	"github.com/zenon-network/go-zenon/vm/embedded/definition"
 	"github.com/zenon-network/go-zenon/vm/embedded/implementation"
@@ -259,6 +260,8 @@ func BridgeIntents() []Intent {
 		{"liquidity-additional-reward", intentLiqReward}, {"liquidity-halt", intentLiqHalt},
 		{"bridge-update-wrap", intentUpdateWrap}, {"bridge-signed-halt", intentSignedHalt}, {"bridge-keygen", intentKeyGen},
 		{"bridge-admin-misc", intentBridgeAdminMisc},
+		{"emergency", intentEmergency}, {"propose-administrator", intentProposeAdmin}, {"propose-administrator2", intentProposeAdmin},
+		{"change-administrator", intentChangeAdmin}, {"liquidity-fund", intentLiqFund},
 	}
 }
 
@@ -532,4 +535,84 @@ func intentBridgeAdminMisc(h *Hist) bool {
 			uint32(c.Int("bam.confZnn", 0, 20)), uint32(c.Int("bam.estimated", 0, 12))), "bridge.SetOrchestratorInfo"
 	}
 	return h.call(admin, types.BridgeContract, types.ZnnTokenStandard, big.NewInt(0), data, descr)
+}
+
+func adminContract(h *Hist, label string) (types.Address, abi.ABIContract) {
+	if h.C.Bool(label) {
+		return types.LiquidityContract, definition.ABILiquidity
+	}
+	return types.BridgeContract, definition.ABIBridge
+}
+
+// currentAdmin reads the administrator a contract records (zero = emergency).
+func currentAdmin(h *Hist, ct types.Address) types.Address {
+	st := h.A.Chain.GetFrontierAccountStore(ct).Storage()
+	if ct == types.BridgeContract {
+		if bi, err := definition.GetBridgeInfoVariable(st); err == nil && bi != nil {
+			return bi.Administrator
+		}
+	} else if li, err := definition.GetLiquidityInfo(st); err == nil && li != nil {
+		return li.Administrator
+	}
+	return BridgeAdmin()
+}
+
+// intentEmergency: the administrator gives up the contract (rarely: every administrator call fails afterwards until
+// the guardians have elected a new one).
+func intentEmergency(h *Hist) bool {
+	ct, ab := adminContract(h, "em.liquidity")
+	if h.C.Weighted("em.really", 5, 1) == 0 {
+		return false
+	}
+	from := currentAdmin(h, ct)
+	if h.W.Keys.ByAddr[from] == nil {
+		from = h.user("em.from")
+	}
+	return h.call(from, ct, types.ZnnTokenStandard, big.NewInt(0), ab.PackMethodPanic(definition.EmergencyMethodName), ContractNames[ct]+".Emergency()")
+}
+
+// intentProposeAdmin: a guardian (or somebody else) proposes an administrator; a majority elects it in an emergency.
+func intentProposeAdmin(h *Hist) bool {
+	c := h.C
+	ct, ab := adminContract(h, "pa.liquidity")
+	from := UserKey(c.Int("pa.guardian", 0, 4)).Address
+	if c.Weighted("pa.byOther", 6, 1) == 1 {
+		from = h.user("pa.from")
+	}
+	who := BridgeAdmin()
+	if c.Weighted("pa.other", 3, 1) == 1 {
+		who = h.user("pa.who")
+	}
+	return h.call(from, ct, types.ZnnTokenStandard, big.NewInt(0), ab.PackMethodPanic(definition.ProposeAdministratorMethodName, who),
+		fmt.Sprintf("%s.ProposeAdministrator(%s) by %s", ContractNames[ct], short(who), short(from)))
+}
+
+// intentChangeAdmin: the administrator hands over to another key of the ring (time-challenged: sent again later).
+func intentChangeAdmin(h *Hist) bool {
+	c := h.C
+	ct, ab := adminContract(h, "ca.liquidity")
+	if c.Weighted("ca.really", 3, 1) == 0 {
+		return false
+	}
+	from := currentAdmin(h, ct)
+	if h.W.Keys.ByAddr[from] == nil {
+		return false
+	}
+	to := []types.Address{BridgeAdmin(), UserKey(3).Address}[c.Pick("ca.to", 2)]
+	return h.call(from, ct, types.ZnnTokenStandard, big.NewInt(0), ab.PackMethodPanic(definition.ChangeAdministratorMethodName, to),
+		fmt.Sprintf("%s.ChangeAdministrator(%s)", ContractNames[ct], short(to)))
+}
+
+// intentLiqFund: the spork key moves liquidity funds to the accelerator or burns ZNN of the contract.
+func intentLiqFund(h *Hist) bool {
+	c := h.C
+	from := h.W.Keys.Spork.Address
+	zb, qb := h.Balance(types.LiquidityContract, types.ZnnTokenStandard), h.Balance(types.LiquidityContract, types.QsrTokenStandard)
+	pick := func(label string, bal *big.Int) *big.Int {
+		return []*big.Int{big.NewInt(0), big.NewInt(1), new(big.Int).Rsh(bal, 1), new(big.Int).Set(bal), new(big.Int).Add(bal, big.NewInt(1))}[c.Pick(label, 5)]
+	}
+	if c.Bool("lf.burn") {
+		return h.call(from, types.LiquidityContract, types.ZnnTokenStandard, big.NewInt(0), definition.ABILiquidity.PackMethodPanic(definition.BurnZnnMethodName, pick("lf.burnAmt", zb)), "liquidity.BurnZnn()")
+	}
+	return h.call(from, types.LiquidityContract, types.ZnnTokenStandard, big.NewInt(0), definition.ABILiquidity.PackMethodPanic(definition.FundMethodName, pick("lf.znn", zb), pick("lf.qsr", qb)), "liquidity.Fund()")
 }
